@@ -35,6 +35,13 @@ def scenarios(quick):
         scenario("nested", {"d1": {"d2": {"d3": {"f": 100, "g": 2500}}, "h": 10}, "top": 999}, 500),
         scenario("fsync-mixed", dict(small, big=6000), 2000, extra=["--fsync"]),
     ]
+    sp = scenario("specials-mixed", {("d%02d" % i): {"f": 50 + i, "g": 1200} for i in range(24)}, 1000)
+    for i in range(24):
+        sp["fs0"].append(E("s/d%02d/p" % i, "fifo", m=0o666))
+        if i % 3 == 0:
+            sp["fs0"].append(E("s/d%02d/c" % i, "chr", "1:3", m=0o660))
+    sp["umask"] = 0o022
+    out.append(sp)
     if not quick:
         out.append(scenario("wide", {("w%03d" % i): (i * 131) % 5000 for i in range(300)}, 1024))
     return out
@@ -51,6 +58,8 @@ def view(after, with_meta=True):
             mtime = ""            # directory mtimes are set by the creation of children (not copied by xcp)
         if e["k"] == "link":
             mode, mtime = "", ""
+        if e["k"] in ("fifo", "sock", "chr", "blk"):
+            mtime = ""            # a recreated node has the time of its creation (no property claims otherwise)
         out.append(["/".join(e["p"]), e["k"], e["c"], mode if with_meta else "", mtime if with_meta else ""])
     return out
 
